@@ -369,3 +369,21 @@ package genql
 //@   modifies cell(any) at &err
 //@   modifies C|Slice at &result
 //@   ensures noop[C19,C10]: !panicking() ==> err == old(err) && result == old(result)
+
+// ---------------------------------------------------------------------------
+// processors.go: dialect rewrites (C17)
+
+//@ func DoubleQuotesToBackTick
+//@   safety[C17]
+//@   loop 0 invariant idx[C17]: 0 <= i && i <= len(str)
+//@   loop 1 invariant idx[C17]: 1 <= i && i <= len(str)
+//@   loop 1 decreases [C17,C10]: len(str) - i
+//@   loop 2 invariant idx[C17]: 1 <= i && i <= len(str)
+//@   loop 2 decreases [C17,C10]: len(str) - i
+//@   loop 3 invariant idx[C17]: 1 <= i && i <= len(str)
+//@   loop 3 decreases [C17,C10]: len(str) - i
+
+//@ func FindArrayIndex
+//@   safety[C17] at str[i]
+//@   loop 0 invariant idx[C17]: 0 <= i && i <= len(str) + 1
+//@   loop 0 decreases [C17,C10]: len(str) + 1 - i
